@@ -882,6 +882,7 @@ class Binary:
 
     def __init__(self, idx, lang, origin, source=None, path=None, flavour="", mapfile=None):
         self.idx, self.lang, self.origin, self.source, self.path, self.flavour, self.mapfile = idx, lang, origin, source, path, flavour, mapfile
+        self.probe = False
         self.events = []
         self.meta = {}        # local event index -> dict(opts, width, mapped, argv..., stderr)
         self.status = "ok"
@@ -905,6 +906,9 @@ def plan_pairs(b, tier, widths_all=False, optsets=None):
     sets = OPTSETS if optsets is None else optsets
     if b.lang.key.startswith("mission"):
         sets = [OPTSETS[0], OPTSETS[31], OPTSETS[5], OPTSETS[10]]
+    elif b.probe and tier == "quick" and optsets is None:
+        # probes isolate one known construct: none, each single option, all, one mixed subset
+        sets = [OPTSETS[m] for m in (0, 1, 2, 4, 8, 16, 31, 21)]
     for j, opts in enumerate(sets):
         if widths_all:
             ws = list(WIDTHS)
@@ -1159,6 +1163,7 @@ def run(chk, replay=None):
         for lk, flavour, text in probe_sources():
             binaries.append(Binary(len(binaries), LANGS[lk], "generated", source=text, flavour=flavour,
                                    mapfile=gen_mapfile(random.Random(2000 + len(binaries)), LANGS[lk])))
+            binaries[-1].probe = True
         gen = make_binaries(chk, QUICK_PLAN, start_idx=len(binaries), scale=1 if quick else 25)
         binaries += gen
         todo = []
@@ -1205,7 +1210,7 @@ def run(chk, replay=None):
             if m:
                 chk.sample({"language": b.lang.key, "flavour": b.flavour, "source": b.source[:1500], "decompile": " ".join(m["decompile_argv"]),
                             "recompile": " ".join(m["argv"]), "bytes_equal": m["same"]})
-    chk.set("option_sets", 32)
+    chk.set("option_sets", "all 32 subsets for every bundled and generated binary; 8 for the fixed probes in quick; 4 for mission MSG (options ignored there)")
     chk.set("widths", WIDTHS if not quick else "2 of %s per option set, rotating" % WIDTHS)
     chk.set("exhaustive", False)
     chk.assume("binaries are sampled by generators (plus all bundled files); the 32 option subsets are enumerated completely for every binary")
